@@ -25,8 +25,11 @@ THEOREMS = [
     "TornadoModel.C02.cFinish_closes",
     "TornadoModel.C02.readLine_line",
     "TornadoModel.C02.response_wellframed_exact",
-    "TornadoModel.C02.response_wellframed_partial",
-    "TornadoModel.C02.response_wellframed_refuted",
+    "TornadoModel.C02.response_wellframed",
+    "TornadoModel.C02.flush_rejects_invalid_content_length",
+    "TornadoModel.C02.content_length_check_iff",
+    "TornadoModel.C02.accepted_flush_raises_only_closed",
+    "TornadoModel.C02.invalid_content_length_error_page",
     "TornadoModel.C02.nobody_wire_is_head",
     "TornadoModel.C02.body_is_writes",
     "TornadoModel.C02.fmtChunk_out",
@@ -44,13 +47,17 @@ TRUSTED = [
 ASSUMPTIONS = [
     "request versions HTTP/1.0 and HTTP/1.1 only; methods GET/HEAD/POST; POST carries a Content-Length; no_keep_alive off",
     "handler header names are RFC tokens other than Transfer-Encoding/Connection/Date/Server (names with CR/LF/NUL: C07, D9)",
-    "a handler-set Content-Length is a single decimal value (a non-numeric or multi-valued one makes parse_int raise inside write_headers: out of scope)",
+    "handler-set Content-Length values of >= 4300 digits are not generated (Python's int() digit limit makes parse_int raise "
+    "where the model's parseDec succeeds); any other text, valid or not, is in the domain",
     "Date / Server values and the automatic ETag digest are abstracted (normalised to D / S / \"E\"); check_etag_header is the boolean inmMatch",
     "1xx statuses are treated as body-less final responses by the client specification",
     "set_status is called without a custom reason",
 ]
 RULE = ("handler programs of <= 8 ops (status/set/add/clear header, write, flush, finish) over chunk sizes "
         "{0,1,15,16,255,256,1023,1024,4096,...} x request shapes (GET/HEAD/POST x HTTP/1.0/1.1 x Connection x If-None-Match); "
+        "handler-set Content-Length: correct / short / long / leading zeros, and INVALID ones (non-numeric, negative, signed, "
+        "empty, padded, '3,3', added twice, set after add ...) in ~12% of the random programs plus all programs <= 3 ops "
+        "(<= 4 for two shapes in the thorough tier) over an 8-op Content-Length alphabet x 6 request shapes; "
         "plus a systematic family of programs with LARGE chunks (8 KiB..300 KiB, dense at 65535/65536/65537 and at sums of "
         "buffered writes crossing 64 KiB) placed before the first flush / after it / in finish() / with explicit Content-Length; "
         "non-trivial = the program writes data and flushes or writes twice, or hits an error/abort path; distinct by canonical JSON")
@@ -62,10 +69,13 @@ CLAUSES = {
         "Spec.clientParse on the model's wire bytes = exactly one response, nothing left over, status/reason/header lines "
         "= what write_headers serialised, body = concatenation of the chunks accepted by the connection, delimited by "
         "no-body/chunked/Content-Length/close; otherwise truncated AND closed, only when the handler's own Content-Length "
-        "exceeds what it wrote) + response_wellframed_partial (the originally stated goal under the side conditions) + "
-        "response_wellframed_refuted (without a side condition on header values the statement is false: "
-        "set_header('Content-Length','a') leaves an open connection with nothing written; out of the generator domain, "
-        "see ASSUMPTIONS) + body_is_writes (exception-free programs on non-HEAD requests without an If-None-Match hit: "
+        "exceeds what it wrote; header VALUES are unrestricted since fix 28dd4cc) + response_wellframed (the originally "
+        "stated goal, now at full strength: formerly _partial, with _refuted by set_header('Content-Length','a')) + "
+        "flush_rejects_invalid_content_length / content_length_check_iff / accepted_flush_raises_only_closed (flush() with "
+        "a Content-Length that is not one decimal number raises before _headers_written is set and changes nothing; a flush "
+        "that passes never meets parse_int's ValueError inside write_headers) + invalid_content_length_error_page (the old "
+        "witness for EVERY invalid value and non-HEAD request shape: the client reads exactly the 500 error page) "
+        "+ body_is_writes (exception-free programs on non-HEAD requests without an If-None-Match hit: "
         "the client's status is the one in force at the first flush/finish and its body is the concatenation of the "
         "program's writes up to the first finish, for every interleaving of writes/flushes and every delimitation mode); "
         "built on chunk_wire_roundtrip, readLine_line, content_length_text_roundtrip, identity_coding",
@@ -98,6 +108,11 @@ H_BAD = ["a\nb", "a\rb", "\x00", "x\x7f", "Ā", "a\r\nX-Evil: 1"]
 CONN = [None, None, "keep-alive", "Keep-Alive", "close", "Close", "foo"]
 INM = ["none", "none", "star", "hit", "weakhit", "miss", "junk"]
 NOBODY = lambda code: code in (204, 304) or 100 <= code < 200
+# handler-set Content-Length values parse_int rejects (fix 28dd4cc: rejected by flush() before the response starts) ...
+CL_BAD = ["a", "", " ", "-1", "-0", "+3", " 3", "3 ", "3\t", "3,3", "3, 3", "0x10", "1e3", "3.0", "\xb2", "1_0", "3;", "\xff",
+          "12a", "a12", "Ā"]
+# ... and unusual ones it accepts
+CL_ODD = ["007", "00", "0", "1", "3", "000000000000000000000000000003"]
 
 
 # ------------------------------------------------------------------------------------------- cases
@@ -147,12 +162,48 @@ def _rand_prog(rng, maxops=8):
         else:
             ops.append(["write", [rng.choice(PATTERNS).hex(), rng.choice([255, 256, 255, 256, 1023, 1024, 1025, 4096])]])
     # an explicit Content-Length: correct / short / long, placed before the first flush or anywhere
-    if rng.random() < 0.3:
+    k = rng.random()
+    if k < 0.3:
         total = len(body_of(ops))
         v = rng.choice([total, total, total, max(0, total - 1), total + 1, 0, total + 5])
         pos = rng.randint(0, len(ops))
         ops.insert(pos, ["set", rng.choice(["Content-Length", "content-length"]), str(v)])
+    elif k < 0.42:
+        _insert_odd_cl(rng, ops)
     return ops
+
+
+def _insert_odd_cl(rng, ops):
+    """a Content-Length parse_int rejects (or an unusual one it accepts), through set_header / add_header, once or
+    several times, mostly before the first flush / finish (where it matters), sometimes repaired or cleared later"""
+    total = len(body_of(ops))
+    name = lambda: rng.choice(["Content-Length", "Content-Length", "content-length", "CONTENT-LENGTH"])
+    first = next((i for i, o in enumerate(ops) if o[0] in ("flush", "finish")), len(ops))
+    pos = rng.randint(0, first) if rng.random() < 0.8 else rng.randint(0, len(ops))
+    k = rng.random()
+    if k < 0.40:        # one invalid value
+        new = [[rng.choice(["set", "set", "add"]), name(), rng.choice(CL_BAD)]]
+    elif k < 0.50:      # leading zeros etc.: accepted
+        new = [[rng.choice(["set", "add"]), name(), rng.choice(CL_ODD + [str(total).zfill(rng.randint(1, 6))])]]
+    elif k < 0.75:      # several values: add+add (equal or not), set+add, add+set (the set wins)
+        a = str(rng.choice([total, total, total + 1, 0]))
+        b = a if rng.random() < 0.6 else str(rng.choice([total, total + 1, 3]))
+        new = rng.choice([[["add", name(), a], ["add", name(), b]],
+                          [["set", name(), a], ["add", name(), b]],
+                          [["add", name(), a], ["set", name(), b]],
+                          [["add", name(), a], ["add", name(), b], ["add", name(), a]]])
+    elif k < 0.88:      # invalid, then repaired / cleared before the response starts
+        new = [["set", name(), rng.choice(CL_BAD)],
+               rng.choice([["set", name(), str(total)], ["clear", name()], ["clear", "Content-Length"]])]
+    else:               # valid, then broken
+        new = [["set", name(), str(total)], [rng.choice(["set", "add"]), name(), rng.choice(CL_BAD)]]
+    if len(new) > 1 and rng.random() < 0.3:     # spread the ops out
+        ops.insert(pos, new[0])
+        for o in new[1:]:
+            pos = rng.randint(pos + 1, len(ops))
+            ops.insert(pos, o)
+    else:
+        ops[pos:pos] = new
 
 
 def _rand_req(rng):
@@ -185,11 +236,39 @@ SMALL_REQS = [
 ]
 
 
-def _enum(maxlen, reqs):
+# the Content-Length alphabet: every way a handler can get an (in)valid Content-Length into its header map
+CL_OPS = [["set", "Content-Length", "a"], ["set", "Content-Length", "2"], ["add", "Content-Length", "2"],
+          ["add", "content-length", "-1"], ["clear", "Content-Length"], ["write", ["6162", 2]], ["flush"], ["finish", None]]
+
+
+def _enum(maxlen, reqs, alphabet=None):
     for L in range(0, maxlen + 1):
-        for seq in itertools.product(SMALL_OPS, repeat=L):
+        for seq in itertools.product(alphabet or SMALL_OPS, repeat=L):
             for rq in reqs:
                 yield {"req": dict(rq), "prog": [list(o) for o in seq], "enum": True}
+
+
+def _cl_cases(rng, tier):
+    """invalid handler-set Content-Length: exhaustive short programs + every bad value on every request shape"""
+    if tier == "search":
+        for _ in range(60):
+            prog = _rand_prog(rng, 5)
+            _insert_odd_cl(rng, prog)
+            yield {"req": _rand_req(rng), "prog": prog}
+        return
+    thorough = tier == "thorough"
+    seen = set()
+    for c in itertools.chain(_enum(3 if thorough else 2, SMALL_REQS, CL_OPS), _enum(4 if thorough else 3, SMALL_REQS[:2], CL_OPS)):
+        key = (tuple(sorted(c["req"].items(), key=str)), repr(c["prog"]))
+        if key not in seen:
+            seen.add(key)
+            yield c
+    for v in CL_BAD + CL_ODD:
+        for kind in ("set", "add"):
+            for tail in ([], [["flush"]], [["write", ["616263", 3]]], [["write", ["616263", 3]], ["flush"], ["write", ["61", 1]]],
+                         [["status", 204]], [["status", 304], ["flush"]], [["finish", ["616263", 3]]]):
+                for rq in (BIG_REQS if thorough else rng.sample(BIG_REQS, 3)):
+                    yield {"req": dict(rq), "prog": [[kind, "Content-Length", v]] + [list(o) for o in tail]}
 
 
 BIG_REQS = SMALL_REQS + [
@@ -296,6 +375,7 @@ def gen_cases(rng, tier, compress=False):
     elif tier == "thorough":
         yield from _enum(4, SMALL_REQS)
     yield from _big_cases(rng, tier)
+    yield from _cl_cases(rng, tier)
     for _ in range(n_prog):
         prog = _rand_prog(rng)
         for _ in range(5):
@@ -524,11 +604,19 @@ def parse_spec(reply):
 _VALID = re.compile(r"[\x09\x20-\x7e\x80-\xff]*\Z")
 _FIELD_VALUE = re.compile(r"(?:[\x21-\x7e\x80-\xff](?:[\x21-\x7e\x80-\xff \t]*[\x21-\x7e\x80-\xff])?)?\Z")
 _TOKEN = re.compile(r"[!#$%&'*+\-.^_`|~0-9A-Za-z]+\Z")
+_DECIMAL = re.compile(r"[0-9]+\Z")
+
+
+def cl_invalid(hdrs):
+    """the handler's Content-Length (all values, as `headers[...]` joins them) is not one decimal number"""
+    vals = hdrs.get("content-length")
+    return vals is not None and not _DECIMAL.match(",".join(vals))
 
 
 def intended(case, default_ct=True):
     """What the program asks for, read off the program text alone (no framework logic beyond: an op after the
-    response has started cannot change its status line / headers; an op with an illegal argument is rejected)."""
+    response has started cannot change its status line / headers; an op with an illegal argument is rejected;
+    the flush / finish that would start a response whose Content-Length is not a decimal number is rejected)."""
     hdrs = {}            # lower name -> list of values, as the handler set them
     if default_ct:
         hdrs["content-type"] = ["text/html; charset=UTF-8"]
@@ -555,12 +643,17 @@ def intended(case, default_ct=True):
             wrote = True
         elif k == "flush":
             if not emitted:
+                if cl_invalid(hdrs):
+                    rejected = "before"
+                    break
                 emitted, at_emit = True, (status, {n: list(v) for n, v in hdrs.items()})
         elif k == "finish":
             if o[1] is not None:
                 writes += chunk_bytes(o[1])
                 wrote = True
             break
+    if not emitted and rejected is None and cl_invalid(hdrs):
+        rejected = "before"          # the explicit or automatic finish() cannot start the response either
     flushed_early = emitted
     if at_emit is None:
         at_emit = (status, hdrs)
@@ -569,14 +662,36 @@ def intended(case, default_ct=True):
             "wrote": wrote}
 
 
+def cl_invalid_at_start(case):
+    """the program reaches its first flush / finish (explicit or automatic) with an invalid Content-Length and
+    nothing rejected before: the case the fix 28dd4cc is about"""
+    hdrs = {}
+    for o in case["prog"]:
+        k = o[0]
+        if k in ("set", "add"):
+            if not _VALID.match(o[2]) or (k == "add" and (not _TOKEN.match(o[1]) or not _FIELD_VALUE.match(o[2]))):
+                return False
+            if k == "set":
+                hdrs[o[1].lower()] = [o[2]]
+            else:
+                hdrs.setdefault(o[1].lower(), []).append(o[2])
+        elif k == "clear":
+            hdrs.pop(o[1].lower(), None)
+        elif k in ("flush", "finish"):
+            break
+    return cl_invalid(hdrs)
+
+
 def spec_violation(case, impl, replies, vary_ok=None, decode=None):
     p = parse_spec(replies[0])
     rq = case["req"]
     want = intended(case)
     head = rq["method"] == "HEAD"
     explicit_cl = want["headers"].get("content-length")
+    # the number the handler declared (leading zeros allowed: "007" declares 7); None if it is not one decimal number
+    declared = int(explicit_cl[0]) if explicit_cl and len(explicit_cl) == 1 and _DECIMAL.match(explicit_cl[0]) else None
     cl_mismatch = (explicit_cl is not None and not head and not NOBODY(want["status"])
-                   and explicit_cl != [str(len(want["body"]))])
+                   and declared != len(want["body"]))
     body_on_nobody = NOBODY(want["status"]) and want["wrote"]
     lenient = bool(want["rejected"]) or cl_mismatch or body_on_nobody
     if p["kind"] == "malformed":
@@ -602,7 +717,7 @@ def spec_violation(case, impl, replies, vary_ok=None, decode=None):
     if not ok_status:
         return "status: got %d, the handler set %d" % (p["status"], want["status"])
     want_body = b"" if head or NOBODY(p["status"]) else want["body"]
-    if cl_mismatch and len(body) < len(want_body) and want_body.startswith(body) and explicit_cl == [str(len(body))]:
+    if cl_mismatch and len(body) < len(want_body) and want_body.startswith(body) and declared == len(body):
         return None          # the handler's own Content-Length is shorter than what it wrote: the client gets that prefix
     if body != want_body:
         return "body: %d bytes delivered, %d bytes written (first difference at %d)" % (
@@ -645,6 +760,16 @@ def stats(case, impl):
     else:
         out.append("framing:none")
     out.append("status:" + head[9:12].decode("latin-1", "replace"))
+    cls = [o for o in case["prog"] if o[0] in ("set", "add") and o[1].lower() == "content-length"]
+    if cls:
+        out.append("cl-ops:%s" % ("1" if len(cls) == 1 else "2+"))
+        for o in cls:
+            v = o[2]
+            out.append("cl-value:" + ("decimal" if _DECIMAL.match(v) and _VALID.match(v) else "empty" if v == "" else
+                                      "negative/signed" if v[:1] in "+-" else "padded" if v.strip(" \t") != v else
+                                      "list" if "," in v else "other-invalid"))
+        if intended(case)["rejected"] == "before" and cl_invalid_at_start(case):
+            out.append("cl:rejected-at-flush")
     for o in case["prog"]:
         out.append("op:" + o[0])
         if o[0] in ("write", "finish") and o[1] is not None:
